@@ -145,3 +145,36 @@ Theorem addrs_equal_iff_permutation :
     (b = true <-> Permutation l1 l2) /\ Permutation l1' l1 /\ Permutation l2' l2.
 Proof. exact addrs_equal_iff_permutation_proved. Qed.
 Print Assumptions addrs_equal_iff_permutation.
+
+(* ---- the request a sync client sends to a publisher advertised by URL ---- *)
+
+(* ipnisync.NewSyncer / Syncer.fetch: ToURL(FromURL u), then url.URL.JoinPath (path.Clean).
+   For EVERY advertised URL the server sees Host = the advertised host:port and the CLEANED
+   concatenation of the advertised path, /ipni/v1/ad and the resource. *)
+Theorem sync_client_request_is_cleaned :
+  forall (u : url) (rsrc : bytes), wf_url u = true ->
+    sync_request u rsrc = Ok (host_string u, clean_path (u_path u ++ ipni_path ++ cSLASH :: rsrc)).
+Proof. exact sync_request_is_cleaned. Qed.
+Print Assumptions sync_client_request_is_cleaned.
+
+(* Premises: the advertised path consists of normal segments (empty path allowed; no
+   repeated or trailing slash, no "." / ".." segment) and the resource is one normal segment
+   ("head", a CID).  Then the client contacts exactly the advertised endpoint: same host and
+   port, advertised path followed by /ipni/v1/ad/<resource>, whatever bytes the segments hold
+   (spaces, '+', '%', non-ASCII, ...). *)
+Theorem sync_client_requests_advertised_endpoint :
+  forall (u : url) (rsrc : bytes) (segs : list bytes),
+    wf_url u = true -> u_path u = join_slash segs -> forallb normal_seg segs = true -> normal_seg rsrc = true ->
+    sync_request u rsrc = Ok (host_string u, u_path u ++ ipni_path ++ cSLASH :: rsrc).
+Proof. exact sync_client_requests_advertised_endpoint_proved. Qed.
+Print Assumptions sync_client_requests_advertised_endpoint.
+
+(* the premise on the path is needed (finding sync:request-path:repeated-slashes-collapsed):
+   for http://127.0.0.1:8080//a the client requests /a/ipni/v1/ad/head *)
+Theorem sync_client_repeated_slashes_refuted :
+  wf_url witness_slashes = true /\
+  (exists h p, sync_request witness_slashes [104;101;97;100] = Ok (h, p) /\
+               p = [47;97] ++ ipni_path ++ [47;104;101;97;100] /\
+               p <> u_path witness_slashes ++ ipni_path ++ [47;104;101;97;100]).
+Proof. exact sync_client_repeated_slashes_refuted_proved. Qed.
+Print Assumptions sync_client_repeated_slashes_refuted.
